@@ -1,12 +1,18 @@
 """
 C20 — activate() redirects every pyspark.sql import and is fully reversible.
 
-proof      : lean/SqlframeModel/Props/C20.lean over the regenerated Gen/Activate.lean
-tie        : (a) Gen.Activate regenerated from /repo's sqlframe/__init__.py + every engine package on each run and
-             exercised against the live objects; (b) correspondence: event sequences run on the REAL code, each in a
-             fresh interpreter (tools/props/c20_child.py), in two environments (real pyspark hidden by a meta-path
-             blocker / as installed) vs the Lean model's trace (Driver/C20.lean)
-search     : the same runs are judged against the Lean *specification* machine (what each event must yield)
+proof      : lean/SqlframeModel/Props/C20.lean over the regenerated Gen/Activate.lean and Gen/ActSession.lean
+tie        : (a) Gen.Activate / Gen.ActSession regenerated from /repo's sqlframe/__init__.py, every engine package and the
+             session modules on each run and exercised against the live objects; (b) correspondence: event sequences run
+             on the REAL code, each in an interpreter in which sqlframe and pyspark have never been imported
+             (tools/props/c20_child.py: forked from a zygote that holds third-party libraries only; a sample is re-run in
+             brand-new interpreters), in two environments (real pyspark hidden by a meta-path blocker / as installed) vs
+             the Lean model's trace (Driver/C20.lean).  Observed after every event: the outcome, the tracked sys.modules
+             entries, ACTIVATE_CONFIG, the engines' `functions` attributes and the content of every settings dict the
+             harness (the caller) has passed in — one dict object per settings value, reused by every activation of the case
+search     : the same runs are judged against the Lean *specification* machine (what each event must yield); targeted
+             families: pairs of argument shapes across a deactivation / two context blocks, and session creations that
+             fail (unusable connection, unknown dialect) followed by further activations and sessions
 """
 from __future__ import annotations
 
@@ -25,10 +31,11 @@ from vlib import Ctx, log
 ID = "C20"
 LEVEL = "proof"
 MODULES = ["SqlframeModel.Codec.C20", "SqlframeModel.Props.C20"]
-GEN = ["Activate"]
+GEN = ["Activate", "ActSession"]
 SOURCES = [
     "SqlframeModel/Props/C20.lean",
     "SqlframeModel/Lemmas/C20.lean",
+    "SqlframeModel/Lemmas/C20Side.lean",
     "SqlframeModel/Impl/C20Activate.lean",
     "SqlframeModel/Impl/C20Spec.lean",
 ]
@@ -82,9 +89,9 @@ def show_event(ev: t.Any) -> str:
         a = ev[k]
         args = [repr(a["eng"])] if a["eng"] is not None else []
         if a["conn"] is not None:
-            args.append(f"conn=c{a['conn']}")
+            args.append(f"conn=c{a['conn']}" + (f"<{CONN_KINDS[a['conn']]}>" if a["conn"] in CONN_KINDS else ""))
         if a["dialect"] is not None:
-            args.append("config={'sqlframe.input.dialect': %r}" % a["dialect"])
+            args.append("config=cfg_%s" % a["dialect"])
         return ("activate(" if k == "activate" else "with activate_context(") + ", ".join(args) + (")" if k == "activate" else "): # enter")
     if "ctxExit" in ev:
         return {"normal": "# leave the block normally", "exn": "raise RuntimeError  # inside the block", "base": "raise KeyboardInterrupt-like BaseException  # inside the block"}[ev["ctxExit"]["k"]]
@@ -97,7 +104,13 @@ def show_event(ev: t.Any) -> str:
 
 
 def show_case(c: dict) -> str:
-    return f"[{c['env']}] " + "; ".join(show_event(e) for e in c["events"])
+    ds = []
+    for e in c["events"]:
+        a = (e.get("activate") or e.get("ctxEnter")) if isinstance(e, dict) else None
+        if a and a["dialect"] is not None and a["dialect"] not in ds:
+            ds.append(a["dialect"])
+    pre = "".join("cfg_%s = {'sqlframe.input.dialect': %r}; " % (d, d) for d in ds)
+    return f"[{c['env']}] " + pre + "; ".join(show_event(e) for e in c["events"])
 
 
 BATTERY = [
@@ -136,7 +149,69 @@ WIDE = CORE + [
     FI("pyspark", "testing"),
     IA("pyspark.testing"),
     IM("pyspark.sql.table"),
+    A("duckdb", conn=1, dialect="duckdb"),
+    A("duckdb", conn=2, dialect="bigquery"),
+    A("standalone", conn=1, dialect="duckdb"),
+    CE("duckdb", conn=1, dialect="duckdb"),
+    CE("standalone", dialect="duckdb"),
 ]
+
+# argument shapes of an activation: (conn, dialect)
+SHAPES = [(None, None), (1, None), (2, None), (None, "duckdb"), (1, "duckdb"), (2, "bigquery")]
+
+
+def wide_alphabet() -> t.List[t.Any]:
+    """WIDE + activations on the connections on which session creation fails here"""
+    extra = []
+    for n in _BAD[:2]:
+        extra += [A("duckdb", conn=n), CE("duckdb", conn=n)]
+    return WIDE + extra
+
+
+def shape_pair_cases(ctx: Ctx) -> t.List[dict]:
+    """two activations with every pair of argument shapes (none / a connection / a settings dict / both; the settings
+    dict of equal settings is ONE object, as in an application that keeps its settings in a module-level dict),
+    separated by deactivate(), by nothing, or as two activate_context blocks (left normally / by an exception), and a
+    session created at the end: what the first activation was given must not reach the second"""
+    out = []
+    rng = ctx.rng
+    pairs = [(a, b) for a in SHAPES for b in SHAPES]
+    for a, b in pairs:
+        out.append({"env": "hidden", "events": [A("duckdb", *a), D, A("duckdb", *b), S], "origin": "shape-pairs"})
+    extra = pairs if ctx.thorough else rng.sample(pairs, 12)
+    for a, b in extra:
+        k = rng.choice(["normal", "exn", "base"])
+        e2 = rng.choice(["duckdb", "standalone"])
+        out.append({"env": "hidden", "events": [CE("duckdb", *a), CX(k), CE(e2, *b), S, CX("normal")], "origin": "shape-pairs"})
+    extra = pairs if ctx.thorough else rng.sample(pairs, 8)
+    for a, b in extra:
+        out.append({"env": rng.choice(["hidden", "real"]), "events": [A("duckdb", *a), A("standalone", *b), D, A("duckdb", *a), S], "origin": "shape-pairs"})
+    return out
+
+
+def fault_cases(ctx: Ctx) -> t.List[dict]:
+    """session creation fails (a connection that cannot be used / a dialect that does not exist), inside a plain activation
+    or inside an activate_context block that is then left by that exception; the process goes on: a second (and
+    third) activation with other arguments creates a session"""
+    out = []
+    rng = ctx.rng
+    faults: t.List[t.Tuple[t.Optional[int], t.Optional[str]]] = [(n, None) for n in _BAD] + [(None, "nope")] + [(n, "duckdb") for n in _BAD[:1]]
+    seconds = [("duckdb", 1, None), ("duckdb", 2, "duckdb"), ("duckdb", None, None), ("standalone", None, None), ("duckdb", None, "duckdb")]
+    seconds += [("duckdb", n, None) for n in _BAD[:1]]
+    for fc, fd in faults:
+        for form in ("plain", "ctx"):
+            for e2, c2, d2 in seconds:
+                if not ctx.thorough and rng.random() < 0.35:
+                    continue
+                if form == "plain":
+                    evs = [A("duckdb", fc, fd), S, D, A(e2, c2, d2), S]
+                else:
+                    evs = [CE("duckdb", fc, fd), S, CX("exn"), CE(e2, c2, d2), S, CX("normal")]
+                if rng.random() < 0.5:
+                    evs += [D, A("duckdb", 2 if c2 != 2 else 1, d2), S]
+                out.append({"env": "hidden" if rng.random() < 0.8 else "real", "events": evs, "origin": "session-faults"})
+    return out
+
 
 
 SESSION_ENGINES = ("duckdb", "standalone")
@@ -172,32 +247,159 @@ def well_formed(evs: t.List[t.Any]) -> bool:
 # ------------------------------------------------------------------------------------------------
 
 
-def run_child(job: dict, timeout: int = 120) -> dict:
+def _child_env() -> dict:
     env = dict(os.environ)
     env.pop("PYTHONPATH", None)
     env["PYTHONDONTWRITEBYTECODE"] = "1"
-    p = subprocess.run([PY, CHILD], input=json.dumps(job), capture_output=True, text=True, timeout=timeout, env=env, cwd="/tmp")
+    return env
+
+
+def run_child(job: dict, timeout: int = 120) -> dict:
+    """one job in a brand-new interpreter (one process per job)"""
+    try:
+        p = subprocess.run([PY, CHILD], input=json.dumps(job), capture_output=True, text=True, timeout=timeout, env=_child_env(), cwd="/tmp")
+    except subprocess.TimeoutExpired:
+        return {"error": f"no result after {timeout}s"}
     lines = [l for l in p.stdout.split("\n") if l.startswith("{")]
     if p.returncode != 0 or not lines:
         return {"error": (p.stderr or p.stdout)[-600:]}
     return json.loads(lines[-1])
 
 
+class Zygotes:
+    """a few `c20_child.py --serve` processes: each has the third-party libraries loaded (never sqlframe / pyspark) and
+    forks one child per job.  The bytecode of the tree under test is cached in a directory private to this run."""
+
+    def __init__(self, n: int, preload: t.List[str]):
+        import queue
+        import tempfile
+
+        self.pyc = tempfile.mkdtemp(prefix="c20pyc_")
+        env = _child_env()
+        env.pop("PYTHONDONTWRITEBYTECODE", None)
+        env["PYTHONPYCACHEPREFIX"] = self.pyc
+        self.free: "queue.Queue[subprocess.Popen]" = queue.Queue()
+        self.procs = []
+        self.info: t.List[dict] = []
+        self.fallbacks = 0
+        for _ in range(n):
+            p = subprocess.Popen([PY, CHILD, "--serve"], stdin=subprocess.PIPE, stdout=subprocess.PIPE, stderr=subprocess.DEVNULL, text=True, env=env, cwd="/tmp", bufsize=1)
+            self.procs.append(p)
+        for p in self.procs:
+            p.stdin.write(json.dumps({"preload": preload}) + "\n")
+            p.stdin.flush()
+        for p in self.procs:
+            line = p.stdout.readline()
+            try:
+                r = json.loads(line)["res"]
+            except Exception:
+                r = {"polluted": ["?"]}
+            self.info.append(r)
+            if r.get("polluted") or r.get("threads", 1) != 1:
+                # a preloaded library dragged sqlframe / pyspark in, or started a thread: do not fork from this one
+                p.kill()
+            else:
+                self.free.put(p)
+
+    def usable(self) -> bool:
+        return not self.free.empty()
+
+    def run(self, job: dict) -> dict:
+        p = self.free.get()
+        try:
+            p.stdin.write(json.dumps(job) + "\n")
+            p.stdin.flush()
+            line = p.stdout.readline()
+            if not line:
+                raise RuntimeError("zygote died")
+            res = json.loads(line)["res"]
+            self.free.put(p)
+            return res
+        except Exception:
+            # replace nothing: fall back to a one-shot interpreter for this job; the zygote is dropped
+            try:
+                p.kill()
+            except Exception:
+                pass
+            self.fallbacks += 1
+            if self.free.empty() and not any(q.poll() is None for q in self.procs):
+                _POOL.clear()
+            return run_child(job)
+
+    def close(self) -> None:
+        import shutil
+
+        for p in self.procs:
+            try:
+                p.stdin.close()
+            except Exception:
+                pass
+        for p in self.procs:
+            try:
+                p.wait(timeout=5)
+            except Exception:
+                p.kill()
+        shutil.rmtree(self.pyc, ignore_errors=True)
+
+
+_POOL: t.List[Zygotes] = []
+_POOL_NOTES: t.Dict[str, t.Any] = {}
+
+
+def n_workers() -> int:
+    return max(2, min(int(os.environ.get("VERIF_WORKERS", "12")), (os.cpu_count() or 2)))
+
+
+def start_pool() -> None:
+    """warm-up: one representative case in a brand-new interpreter reports which third-party modules sqlframe and the
+    real pyspark load; the zygotes import exactly those"""
+    import atexit
+
+    if _POOL or os.environ.get("C20_NO_ZYGOTE"):
+        return
+    warm = run_child({"repo": vlib.REPO, "hide": False, "stubs": STUBS, "tracked": TRACKED, "warm": True, "events": [A("duckdb", conn=1), S, FI("pyspark.testing", "assertDataFrameEqual"), D, IA("pyspark.sql.functions"), FI("pyspark.sql", "SparkSession")]})
+    names = [k for k in warm.get("third_party", []) if not k.startswith("__")]
+    if not names:
+        _POOL_NOTES["zygote"] = "warm-up case gave no module list: one interpreter per case"
+        return
+    z = Zygotes(n_workers(), names)
+    _POOL_NOTES["zygote"] = {"processes": len(z.procs), "usable": z.free.qsize(), "preloaded_modules": len(names), "info": z.info[:1]}
+    if z.usable():
+        _POOL.append(z)
+        atexit.register(z.close)
+    else:
+        z.close()
+
+
+def run_job(job: dict) -> dict:
+    if _POOL:
+        return _POOL[0].run(job)
+    return run_child(job)
+
+
 def pool_map(fn, items, workers: int = 0):
     if workers == 0:
-        workers = max(2, min(int(os.environ.get("VERIF_WORKERS", "12")), (os.cpu_count() or 2)))
+        workers = n_workers()
+        if _POOL:
+            workers = max(1, _POOL[0].free.qsize())
     with ThreadPoolExecutor(max_workers=workers) as ex:
         return list(ex.map(fn, items))
 
 
+# connection labels: 1, 2 ordinary connections; the others are connections on which every use fails (the fault
+# "exception raised by session creation")
+CONN_KINDS = {3: "closed", 4: "udfclash", 5: "dead"}
+_BAD: t.List[int] = []  # the labels on which a first session creation really raises on this tree (probed in setup)
+
+
 def impl_job(c: dict) -> dict:
-    return {"repo": vlib.REPO, "hide": c["env"] == "hidden", "stubs": STUBS, "tracked": TRACKED, "events": c["events"]}
+    return {"repo": vlib.REPO, "hide": c["env"] == "hidden", "stubs": STUBS, "tracked": TRACKED, "events": c["events"], "conn_kinds": {str(k): v for k, v in CONN_KINDS.items()}}
 
 
 def probe_env() -> dict:
     """what a real `import <tracked module>` does in this sandbox (fresh interpreter each).  A failing import can
     leave modules behind whose re-import fails too (deactivate() would hit them): those keys become tracked."""
-    res = pool_map(lambda k: run_child({"probe": k, "tracked": TRACKED, "find_poison": True}), list(TRACKED))
+    res = pool_map(lambda k: run_job({"probe": k, "tracked": TRACKED, "find_poison": True}), list(TRACKED))
     extra = []
     for k, r in zip(list(TRACKED), res):
         if "probe" not in r:
@@ -207,7 +409,7 @@ def probe_env() -> dict:
                 extra.append(pk)
     if extra:
         TRACKED.extend(extra)
-        res = pool_map(lambda k: run_child({"probe": k, "tracked": TRACKED}), list(TRACKED))
+        res = pool_map(lambda k: run_job({"probe": k, "tracked": TRACKED}), list(TRACKED))
     real = []
     for k, r in zip(list(TRACKED), res):
         if "probe" not in r:
@@ -219,11 +421,24 @@ def probe_env() -> dict:
     return {"real": real, "brokenPkgs": []}
 
 
+def probe_bad_conns() -> t.List[int]:
+    """on which of the fault connections does the very first session creation of a process raise?  (what makes a
+    connection unusable is the engine's business; the property speaks about what is left behind afterwards)"""
+    labels = sorted(CONN_KINDS)
+    res = pool_map(lambda n: run_job(impl_job({"env": "hidden", "events": [A("duckdb", conn=n), S]})), labels)
+    bad = []
+    for n, r in zip(labels, res):
+        tr = r.get("trace") or []
+        if len(tr) == 2 and isinstance(tr[1]["outcome"], dict) and "raised" in tr[1]["outcome"]:
+            bad.append(n)
+    return bad
+
+
 def broken_pkgs(engines: t.List[str]) -> t.List[str]:
     """engine packages that cannot be imported here even with the driver stubs (`import sqlframe.<e>` raises)"""
 
     def one(e):
-        r = run_child({"repo": vlib.REPO, "hide": True, "stubs": STUBS, "import_pkg": e})
+        r = run_job({"repo": vlib.REPO, "hide": True, "stubs": STUBS, "import_pkg": e})
         return r.get("import_pkg", "error") is not None
 
     return [e for e, bad in zip(engines, pool_map(one, engines)) if bad]
@@ -244,7 +459,9 @@ def canon_outcome(o: t.Any) -> t.Any:
     if isinstance(o, dict) and "obj" in o:
         return {"obj": canon_obj(o["obj"]["o"])}
     if isinstance(o, dict) and "raised" in o:
-        return {"raised": o["raised"]["x"]}
+        # an Exception subclass without a name of its own in the model (engine errors) is compared as `exception`
+        x = o["raised"]["x"]
+        return {"raised": "exception" if x.startswith("other:") else x}
     return o
 
 
@@ -253,7 +470,7 @@ def canon_step(s: dict, ordered: bool) -> dict:
     # only decides *which* re-import raises first in deactivate(), which the outcomes already show
     mods = sorted([[k, canon_obj(v)] for k, v in s["mods"]], key=lambda kv: kv[0])
     fn = [[e, [canon_obj(a[0]) if a[0] is not None else None, a[1]]] for e, a in s["fn"]]
-    return {"outcome": canon_outcome(s["outcome"]), "mods": mods, "config": s["config"], "fn": fn}
+    return {"outcome": canon_outcome(s["outcome"]), "mods": mods, "config": s["config"], "caller": s.get("caller", []), "fn": fn}
 
 
 def owner(o: t.Any) -> t.Optional[str]:
@@ -307,7 +524,10 @@ def state_meets(spec: dict, s: dict, doc_sql_keys: t.List[str]) -> bool:
                 return False
         elif spec["mocked"]:
             return False
-    return s["config"] == spec["config"]
+    if s["config"] != spec["config"]:
+        return False
+    # the caller's own config dicts still have exactly the content they were created with
+    return all(c == [["sqlframe.input.dialect", {"str": {"s": d}}]] for d, c in s.get("caller", []))
 
 
 # ------------------------------------------------------------------------------------------------
@@ -337,7 +557,12 @@ def spec_tables() -> t.Any:
 def evaluate(cases: t.List[dict]) -> t.List[dict]:
     import c20_spec
 
-    impls = pool_map(lambda c: run_child(impl_job(c)), cases)
+    impls = pool_map(lambda c: run_job(impl_job(c)), cases)
+    # a case without a result (a child killed by the watchdog on an overloaded machine) is run once more on its own
+    for i, (c, r) in enumerate(zip(cases, impls)):
+        if "trace" not in r:
+            log(f"C20: no result for a case ({str(r.get('error'))[:120]}); retrying in a new interpreter")
+            impls[i] = run_child(impl_job(c), timeout=600)
     outs: t.List[t.Optional[dict]] = [None] * len(cases)
     if _MODEL["ok"]:
         outs = vlib.run_driver("C20", [{"case": i, "env": lean_env(c["env"]), "events": c["events"]} for i, c in enumerate(cases)])
@@ -365,7 +590,7 @@ def evaluate(cases: t.List[dict]) -> t.List[dict]:
                 spec_fail = {"event": i, "what": "outcome", "want": sp["want"], "got": s["outcome"]}
                 break
             if not state_meets(sp, s, _DOC_SQL_KEYS):
-                spec_fail = {"event": i, "what": "state", "spec_state": {k: sp[k] for k in ("active", "mocked", "config")}, "got": {"mods": s["mods"], "config": s["config"]}}
+                spec_fail = {"event": i, "what": "state", "spec_state": {k: sp[k] for k in ("active", "mocked", "config")}, "got": {"mods": s["mods"], "config": s["config"], "caller_config_dicts": s.get("caller", [])}}
                 break
         model_spec_ok = all(sp.get("meets", True) and sp.get("stateMeets", True) for sp in o["spec"])
         res.append(
@@ -449,6 +674,8 @@ def cases_for(ctx: Ctx, engines: t.List[str], broken: t.List[str]) -> t.List[dic
         for env in ("hidden", "real"):
             evs = [A(e)] + [{"userImport": {"f": f}} for f in documented] + [D] + [{"userImport": {"f": f}} for f in documented[:3]]
             cases.append({"env": env, "events": evs, "origin": "redirect-all-paths"})
+    cases += shape_pair_cases(ctx)
+    cases += fault_cases(ctx)
     rng = ctx.rng
     depth_h, depth_r = (4, 3) if ctx.thorough else (2, 1)
     for env, depth in (("hidden", depth_h), ("real", depth_r)):
@@ -457,11 +684,12 @@ def cases_for(ctx: Ctx, engines: t.List[str], broken: t.List[str]) -> t.List[dic
                 if well_formed(list(seq)):
                     cases.append({"env": env, "events": list(seq) + BATTERY, "origin": f"exhaustive-core-L{L}"})
     n_h, n_r = (2500, 600) if ctx.thorough else (260, 70)
+    wide = wide_alphabet()
     for env, n in (("hidden", n_h), ("real", n_r)):
         made = 0
         while made < n:
             L = rng.randint(3, 5)
-            pool = WIDE if rng.random() < 0.6 else CORE
+            pool = wide if rng.random() < 0.6 else CORE
             seq = [rng.choice(pool) for _ in range(L)]
             if not well_formed(seq):
                 continue
@@ -500,6 +728,19 @@ for e, pre in sqlframe.ENGINE_TO_PREFIX.items():
         continue
     sel = [k for k in m.__dict__ if k.startswith(pre) or k in ["Column", "Window", "WindowSpec", "functions", "types"]]
     out["engines"][e] = {"selected": sel, "has_functions": "functions" in m.__dict__}
+# the session classes: constants of the builder, whether the DuckDB builder caches, whether __new__ stores the object
+try:
+    import functools
+    from sqlframe.base.session import _BaseSession
+    from sqlframe.duckdb.session import DuckDBSession
+    B = _BaseSession.Builder
+    o = DuckDBSession.__new__(DuckDBSession)
+    out["session"] = {"connKey": B.SQLFRAME_CONN_KEY, "dialectKey": B.SQLFRAME_INPUT_DIALECT_KEY, "defaultDialect": B.DEFAULT_INPUT_DIALECT,
+                      "duckBuilderCaches": isinstance(DuckDBSession.Builder.__dict__.get("session"), functools.cached_property),
+                      "singletonInNew": _BaseSession._instance is o and not hasattr(o, "_connection"),
+                      "builders_are_class_attributes": isinstance(DuckDBSession.__dict__.get("builder"), DuckDBSession.Builder) and isinstance(_BaseSession.__dict__.get("builder"), B)}
+except BaseException as ex:
+    out["session"] = {"error": type(ex).__name__ + ": " + str(ex)[:100]}
 print(json.dumps(out))
 """
 
@@ -535,6 +776,17 @@ def exercise_tables(ctx: Ctx) -> t.Dict[str, t.Any]:
             ctx.broken.append(f"exercise: selected names of sqlframe.{e} differ: live {info['selected']} vs generated {sel_model.get(e)}")
         elif info["selected"] != sel_model.get(e):
             order_notes.append(f"{e}: same selected names, different dict order (only matters when activate raises midway)")
+    # Gen.ActSession's constants against the live classes
+    ls, ms = live.get("session", {}), tables.get("session", {})
+    if "error" in ls:
+        ctx.broken.append("exercise: the session classes cannot be inspected: " + ls["error"])
+    else:
+        for k in ("connKey", "dialectKey", "defaultDialect", "duckBuilderCaches", "singletonInNew"):
+            if ls.get(k) != ms.get(k):
+                ctx.broken.append(f"exercise: Gen.ActS.{k} = {ms.get(k)!r} but the live classes say {ls.get(k)!r}")
+        if not ls.get("builders_are_class_attributes"):
+            ctx.broken.append("exercise: the builders are no longer class attributes (the model keeps them across deactivate())")
+    notes["session_tables"] = ms
     notes["selected_order_notes"] = order_notes
     notes["engines_exercised"] = [e for e, i in live["engines"].items() if "error" not in i]
     return notes
@@ -570,17 +822,28 @@ def setup(ctx: Ctx) -> t.Tuple[t.List[str], t.List[str]]:
     ctx.cov["table_exercise"] = notes
     engines = list(_TABLES["engines"])
     _DOC_SQL_KEYS[:] = [k for k in _TABLES["docKeys"] if k.startswith("pyspark.sql")]
+    start_pool()
     broken = broken_pkgs(engines)
-    _ENVS["hidden"] = {"real": [], "brokenPkgs": broken}
+    _BAD[:] = probe_bad_conns()
+    _ENVS["hidden"] = {"real": [], "brokenPkgs": broken, "badConns": list(_BAD)}
     real = probe_env()
     real["brokenPkgs"] = broken
+    real["badConns"] = list(_BAD)
     _ENVS["real"] = real
+    ctx.cov["fault_connections"] = {str(n): CONN_KINDS[n] + (" (session creation raises)" if n in _BAD else " (session creation does not raise on this tree: not used as a fault)") for n in CONN_KINDS}
+    ctx.cov["interpreters"] = dict(_POOL_NOTES)
     return engines, broken
 
 
 def run(ctx: Ctx) -> None:
     idx = vlib.props_index()[ID]
+    # the interpreters are warmed up while Lean builds
+    import threading
+
+    th = threading.Thread(target=start_pool, daemon=True)
+    th.start()
     vlib.prove(ctx, MODULES, GEN, idx["theorems"], SOURCES)
+    th.join()
     known = {e["id"]: e for e in vlib.known_findings(ID)}
     for e in local_known():
         known.setdefault(e["id"], e)
@@ -590,6 +853,18 @@ def run(ctx: Ctx) -> None:
     cases = cases_for(ctx, engines, broken)
     log(f"C20: {len(cases)} cases")
     res = evaluate(cases)
+
+    # the forked interpreters against brand-new ones: a sample of the cases is run once more, one process per case
+    if _POOL:
+        k = 24 if ctx.thorough else 10
+        sample = [r for r in res[:: max(1, len(res) // k)] if r.get("impl")][:k]
+        fresh = pool_map(lambda r: run_child(impl_job(r["case"])), sample, workers=n_workers())
+        # (canonical forms: exception texts carry object addresses, sys.modules order is not compared anywhere)
+        differ = [r for r, f in zip(sample, fresh) if "trace" in f and [canon_step(x, True) for x in f["trace"]] != r["impl_c"]]
+        ctx.cov["interpreters"]["revalidated_in_new_interpreters"] = sum(1 for f in fresh if "trace" in f)
+        ctx.cov["interpreters"]["fallbacks"] = _POOL[0].fallbacks if _POOL else None
+        if differ:
+            ctx.broken.append(f"harness: {len(differ)} of {len(sample)} cases behave differently in a forked interpreter and in a new one, e.g. {show_case(differ[0]['case'])}")
 
     corr_bad = [r for r in res if r["corr_ok"] is False]
     if _MODEL["spec_port_mismatch"]:
@@ -703,8 +978,10 @@ def run(ctx: Ctx) -> None:
             "evaluations": len(res),
             "distinct_nontrivial": len(nontrivial),
             "rule": "corpus; for every engine of ENGINE_TO_PREFIX x both environments: activate, every documented import statement, deactivate; "
+            "two activations with every pair of argument shapes (no argument / a connection / a settings dict / both; equal settings = the SAME dict object) separated by deactivate(), by nothing, or as two context blocks, then a session; "
+            "session creation that fails (each kind of unusable connection found to fail here, an unknown dialect) inside a plain activation / a context block left by the exception, followed by further activations and sessions; "
             "every well-formed sequence over the 9-symbol core alphabet up to the tier's depth (+ observation battery); random sequences of length 3..5 over the wide alphabet; "
-            "each case runs in a fresh interpreter; non-trivial = distinct (environment, events) with a successful engine activation and at least one import that yielded a sqlframe object",
+            "each case runs in an interpreter in which sqlframe and pyspark have never been imported (forked from a process holding only third-party libraries; a sample is re-run in brand-new interpreters and compared); non-trivial = distinct (environment, events) with a successful engine activation and at least one import that yielded a sqlframe object",
             "exhaustive": False,
             "traces_validated_against_impl": sum(1 for r in res if r["corr_ok"] is True),
             "model_available": _MODEL["ok"],
@@ -724,6 +1001,8 @@ def run(ctx: Ctx) -> None:
         "the real pyspark of this sandbox behaves as probed at the start of the run (which tracked modules import, which raise, what they load); C20_deactivate_importable assumes every re-import succeeds",
         "only sys.modules keys of the documented pyspark modules are compared; other pyspark.* modules of a real installation are outside the model",
         "session creation is modelled for the duckdb and standalone engines only; other engines' drivers are stubbed for the import-redirection part",
+        "which connections cannot be used is probed per run (the first session creation of a process on a closed connection / a connection with a clashing user function / an object every use of which raises); the specification demands that such a creation raises and leaves nothing behind",
+        "activate()'s `conn` / `config` are the harness's own objects: one connection per label, one settings dict per settings value for the whole case; `if conn:` is taken to be true for a connection object",
         "startswith('pyspark') is applied to whole keys; no other top-level module whose name starts with 'pyspark' is loaded",
     ]
 
